@@ -6,6 +6,23 @@ use simple_sds::serialize::temp_file_name;
 use simple_sds::verif_hooks as hooks;
 use std::sync::{Arc, Condvar, Mutex};
 
+/// A serializable value that notes which files carrying its name part exist while it is being written:
+/// the path serialize::test obtained from temp_file_name internally.
+#[derive(Debug)]
+struct Probe { part: String, seen: std::cell::RefCell<Vec<String>> }
+impl PartialEq for Probe { fn eq(&self, _: &Probe) -> bool { true } }
+impl simple_sds::serialize::Serialize for Probe {
+    fn serialize_header<T: std::io::Write>(&self, _: &mut T) -> std::io::Result<()> { Ok(()) }
+    fn serialize_body<T: std::io::Write>(&self, writer: &mut T) -> std::io::Result<()> {
+        if let Ok(dir) = std::fs::read_dir(std::env::temp_dir()) {
+            for f in dir.flatten() { let n = f.file_name().to_string_lossy().to_string(); if n.contains(&self.part) { self.seen.borrow_mut().push(n); } }
+        }
+        simple_sds::serialize::Serialize::serialize(&7usize, writer)
+    }
+    fn load<T: std::io::Read>(reader: &mut T) -> std::io::Result<Self> { let _ = <usize as simple_sds::serialize::Serialize>::load(reader)?; Ok(Probe { part: String::new(), seen: Default::default() }) }
+    fn size_in_elements(&self) -> usize { 1 }
+}
+
 fn parse_count(path: &std::path::Path) -> Option<usize> {
     path.file_name()?.to_str()?.rsplit('_').next()?.parse().ok()
 }
@@ -74,6 +91,21 @@ pub fn record_temp(seed: u64, thorough: bool, path: &str) -> Value {
         for _ in 0..6 { extra.push(("part_0_x0".to_string(), temp_file_name("part_0_x0").to_string_lossy().to_string())); }
     }
     results.push(extra);
+    // the other public function that takes a temporary name: serialize::test, with and without removing its file,
+    // alternating with direct calls that use the same name part
+    hooks::set_thread_tag(threads + 1);
+    let mut probe_names: Vec<(String, String)> = Vec::new();
+    let ppart = "part_probe".to_string();
+    for i in 0..8 {
+        let probe = Probe { part: ppart.clone(), seen: Default::default() };
+        let kept = guarded(|| simple_sds::serialize::test(&probe, &ppart, Some(1), i % 2 == 0));
+        if let Ok(Some(p)) = &kept { let _ = std::fs::remove_file(p); }
+        let seen = probe.seen.borrow();
+        // exactly the file being written carries the part (earlier ones were removed)
+        probe_names.push((ppart.clone(), if seen.len() == 1 { std::env::temp_dir().join(&seen[0]).to_string_lossy().to_string() } else { format!("PROBE-FAILED {:?} {:?}", seen, kept.as_ref().err()) }));
+        probe_names.push((ppart.clone(), temp_file_name(&ppart).to_string_lossy().to_string()));
+    }
+    results.push(probe_names);
     let log = hooks::stop_atomic_log();
     let mut out = TraceOut::new();
     out.push(json!({"e": "start", "start": start, "threads": threads, "calls": calls}));
@@ -147,4 +179,71 @@ pub fn gated(schedule: &[usize], threads: usize, calls: usize) -> Value {
     let flat: Vec<String> = names.iter().flatten().cloned().collect();
     let distinct: std::collections::HashSet<&String> = flat.iter().collect();
     json!({"names": names, "total": flat.len(), "distinct": distinct.len()})
+}
+
+/// One run of `threads` concurrent calls under a schedule of thread turns (one turn = one primitive on the counter, or
+/// the return of the call).  Turns of a thread whose call has returned are skipped; when the schedule is used up the
+/// remaining threads run freely.  Returns the paths in thread order (None if a call panicked).
+fn run_schedule(schedule: &[usize], threads: usize, part: &str) -> Vec<Option<String>> {
+    struct Ctl { pos: usize, running: Option<usize>, done: Vec<bool> }
+    impl Ctl { fn skip(&mut self, sched: &[usize]) { while self.pos < sched.len() && self.done[sched[self.pos]] { self.pos += 1; } } }
+    let ctl = Arc::new((Mutex::new(Ctl { pos: 0, running: None, done: vec![false; threads + 2] }), Condvar::new()));
+    let sched: Arc<Vec<usize>> = Arc::new(schedule.iter().copied().filter(|t| *t >= 1 && *t <= threads).collect());
+    let (gate_ctl, gate_sched) = (ctl.clone(), sched.clone());
+    hooks::set_gate(Some(Arc::new(move |tag: usize, _op: &'static str| {
+        if tag == 0 || tag > gate_ctl.0.lock().unwrap().done.len() - 2 { return; }
+        let (m, cv) = &*gate_ctl;
+        let mut c = m.lock().unwrap();
+        if c.running == Some(tag) { c.running = None; c.pos += 1; cv.notify_all(); }
+        loop {
+            c.skip(&gate_sched);
+            if c.running.is_none() && (c.pos >= gate_sched.len() || gate_sched[c.pos] == tag) { c.running = Some(tag); return; }
+            let (g, _) = cv.wait_timeout(c, std::time::Duration::from_millis(50)).unwrap();
+            c = g;
+        }
+    })));
+    let mut handles = Vec::new();
+    for t in 1..=threads {
+        let (ctl2, sched2, part2) = (ctl.clone(), sched.clone(), part.to_string());
+        handles.push(std::thread::spawn(move || {
+            hooks::set_thread_tag(t);
+            let p = guarded(|| temp_file_name(&part2));
+            // the return of the call is a scheduled step as well
+            let (m, cv) = &*ctl2;
+            let mut c = m.lock().unwrap();
+            if c.running == Some(t) { c.running = None; c.pos += 1; cv.notify_all(); }
+            loop {
+                c.skip(&sched2);
+                if c.running.is_none() && (c.pos >= sched2.len() || sched2[c.pos] == t) { if c.pos < sched2.len() { c.pos += 1; } break; }
+                let (g, _) = cv.wait_timeout(c, std::time::Duration::from_millis(50)).unwrap();
+                c = g;
+            }
+            c.done[t] = true;
+            cv.notify_all();
+            drop(c);
+            p.ok().map(|p| p.to_string_lossy().to_string())
+        }));
+    }
+    let names: Vec<Option<String>> = handles.into_iter().map(|h| h.join().unwrap_or(None)).collect();
+    hooks::set_gate(None);
+    hooks::set_thread_tag(0);
+    names
+}
+
+/// Replays every schedule generated by mech/Sched on the real code and records what the calls returned.
+pub fn record_schedules(cases: &[Value], path: &str) -> Value {
+    let mut out = TraceOut::new();
+    let mut dup = 0usize;
+    let mut seen = std::collections::HashSet::new();
+    for (i, c) in cases.iter().enumerate() {
+        let threads = c["threads"].as_u64().unwrap() as usize;
+        let sched: Vec<usize> = c["s"].as_array().unwrap().iter().map(|x| x.as_u64().unwrap() as usize).collect();
+        let part = format!("sched{}", i % 7);
+        let got = run_schedule(&sched, threads, &part);
+        let names: Vec<String> = got.iter().flatten().map(|p| std::path::PathBuf::from(p).file_name().unwrap().to_str().unwrap().to_string()).collect();
+        for n in names.iter() { if !seen.insert(n.clone()) { dup += 1; } }
+        out.push(json!({"e": "sched", "s": sched, "completed": got.iter().all(|p| p.is_some()), "has_part": names.iter().all(|n| n.contains(&part)), "names": names}));
+    }
+    out.write(path);
+    json!({"schedules": cases.len(), "queries": cases.len(), "duplicates_seen_by_harness": dup, "events": out.lines.len(), "sample": serde_json::from_str::<Value>(&out.lines[out.lines.len() / 2]).unwrap()})
 }
